@@ -21,7 +21,7 @@ COQ_TARGETS = ["Props/C18.vo", "Props/C18Perm.vo", "Props/C18Rows.vo", "Props/C1
 THEOREM_FILES = ["Props/C18.v", "Props/C18Perm.v", "Props/C18Rows.v", "Props/C18W4.v", "Props/C18W4H.v", "Props/C18W4O.v", "Props/C18W4S.v"]
 COQ_IMPORTS = ("From Coq Require Import List ZArith Bool QArith Qcanon.\n"
                "From PV Require Import Base.Index Np.Array Model.Sparse Model.Repr Model.Harness Model.C18Cmp.\n")
-SHARD = 12          # quick tier: <= 16 shards = one round on 16 cores; ~1.3 s of library loading per shard
+SHARD = 14          # quick tier (222 evaluated pairs): 16 shards = one round on 16 cores; ~1.3 s of library loading per shard
 TOL = Fraction(1, 10 ** 8)
 # per-sweep KKT violations (cp_apr) are a derived diagnostic max|min(m, 1 - sum x / (m . pi))|: entries of size 1e-8 (the value
 # PDNR / PQNR patch all-zero rows of the start with) turn the 1e-16 rounding of the model into 1e-8 in the diagnostic (wave 3b, seed 8:
@@ -597,7 +597,7 @@ def gen_cases(rng, tier):
     #     routine that sorts it is invisible while optdims is complete or the restriction happens to be ascending). N >= 3, >= 2
     #     optimised modes, >= 2 sweeps, restriction descending in the base run for two of three cases, and a relabelling that reverses
     #     the relative position of two optimised modes (so at most one side of the pair can be ascending)
-    for j in range(cnt(4, 6)):
+    for j in range(cnt(4, 3)):
         shape = list(rng.choice(SHAPES4 if j % 2 == 1 else SHAPES3[:-1]))     # every second case 4-way
         b = base_run(rng, "cp_als", shape=shape)
         N = len(shape)
@@ -629,7 +629,7 @@ def gen_cases(rng, tier):
     #     switches the line-search warnings on: dispLineWarn = printinneritn > 0): pairs of (printitn, printinneritn) incl. inner printing
     #     with the outer one off, on runs of several outer / inner iterations with structural zeros in the start
     ipairs = [((0, 0), (0, 1)), ((0, 0), (1, 1)), ((1, 0), (1, 3)), ((2, 1), (0, 2)), ((0, 0), (5, 2))]
-    for alg, nq, n in (("cp_apr_mu", 2, 3), ("cp_apr_pdnr", 2, 3), ("cp_apr_pqnr", 1, 2)):
+    for alg, nq, n in (("cp_apr_mu", 2, 1), ("cp_apr_pdnr", 2, 1), ("cp_apr_pqnr", 1, 1)):     # thorough: 10 bases x 5 pairs each
         for j in range(cnt(nq, n)):
             b = base_run(rng, alg, zero_init=True, rank=2)
             if j % 2 == 1:
